@@ -456,7 +456,7 @@ static void situ_exec(char *line, long *ix)
       if (g_call[3].n) bbase = g_decbase;
       bL1 = opus_verif_celt_decoder_peek(db, 0);
       js_open("decB"); js_str("cmd", cmd); js_int("ix", (*ix)++); js_int("f", k); js_int("C", C); js_int("LM", LM); js_int("start", start); js_int("end", end);
-      js_int("len", lenb); js_int("how", lossB); js_int("dr", drb); js_int("N", N);
+      js_int("len", lenb); js_int("how", lossB); js_int("DC", 2); js_int("dr", drb); js_int("N", N);
       js_int("hasS", haveB ? 1 : 0);
       put_snap("dS0", bS0, 8 * NBE, haveB); put_state("dS1", haveB ? bbase : NULL, 8 * NBE);
       js_int("L0", bL0); js_int("L1", bL1); js_int("K0", bK0);
